@@ -277,10 +277,14 @@ func TestC09(t *testing.T) {
 					c.c09One(s, "enum-codepoints", []rune{r}, true)
 					c.c09One(s, "enum-codepoints", []rune{'a', r, 'b'}, true)
 					c.c09One(s, "enum-codepoints", []rune{'1', r, '2'}, true)
+					// the same code point inside a string, a line comment and a block comment
+					c.c09One(s, "enum-codepoints", []rune{'"', 'p', r, 'q', '"', ' ', 'x'}, true)
+					c.c09One(s, "enum-codepoints", []rune{'a', ' ', '/', '/', 'b', r, 'c', '\n', 'd'}, true)
+					c.c09One(s, "enum-codepoints", []rune{'/', '*', r, '*', '/', 'x'}, true)
 				}
 				k++
 			}
-			c.Ev.MarkExhaustive("every Unicode scalar value alone, between a…b and between 1…2")
+			c.Ev.MarkExhaustive("every Unicode scalar value alone, between a…b, between 1…2, inside a string, inside a line comment and inside a block comment")
 		})
 		c.Sub("enum-fragments", func(s *Sub) {
 			for n := 1; n <= maxFrags; n++ {
